@@ -1,6 +1,7 @@
 import StorageModel.C18.MvccProofs
 import StorageModel.C18.Store
 import StorageModel.C18.Globals
+import StorageModel.C18.ParserPool
 import StorageModel.Generated.Globals
 /-
   C18 — Concurrent use: snapshot-isolated reads and no data races.
@@ -164,6 +165,87 @@ theorem append_table_anchors :
      hasAppend Generated.appends "boltz" "Indexer.AddConstraint" "indexer.constraints" .assignedBack &&
      hasAppend Generated.appends "boltz" "NewBaseStore" "definition.BasePath" .ontoShared) = true := by decide
 
+/-- **Evaluation does not write node state** (a proof about the table, as good as the extractor): no method of an ast node
+    type other than the build/adjust methods (TypeTransform…, Set…, Adopt…) assigns a field or element of its receiver.  A
+    compiled query whose skip and limit are explicit (so that `scanner.setPaging`, which calls SetSkip / SetLimit when they
+    are absent, stores nothing) is therefore read-only while it is evaluated, and may be run by any number of read
+    transactions at once. -/
+theorem eval_does_not_write_nodes : evalDoesNotWriteNodes Generated.nodeWrites = true := by decide
+
+theorem node_write_table_meaning (ws : List NodeWrite) (h : evalDoesNotWriteNodes ws = true) :
+    ∀ w ∈ ws, w.phase = .eval →
+      ∃ e ∈ reviewedNodeWrites, e.1 = w.typ ∧ e.2.1 = w.method ∧ e.2.2.1 = w.field := by
+  intro w hw hp
+  simp only [evalDoesNotWriteNodes, List.all_eq_true] at h
+  have := h w hw
+  simp only [NodeWrite.ok, hp, bne_self_eq_false, Bool.false_or, List.any_eq_true, Bool.and_eq_true,
+    beq_iff_eq] at this
+  obtain ⟨e, he, h1⟩ := this
+  exact ⟨e, he, h1.1.1, h1.1.2, h1.2⟩
+
+/-- the node-write table is not blind: it lists the paging setters that `setPaging` calls and a transform-time write -/
+theorem node_write_table_anchors :
+    (hasNodeWrite Generated.nodeWrites "queryNode" "SetSkip" "Skip" .setup &&
+     hasNodeWrite Generated.nodeWrites "queryNode" "SetLimit" "Limit" .setup &&
+     hasNodeWrite Generated.nodeWrites "SetFunctionNode" "TypeTransform" "symbol" .setup) = true := by decide
+
+/-- **No process-wide configuration from request paths**: outside `init()` the four packages never call a function of
+    another module that sets process-wide state (antlr.ConfigureRuntime, log / logrus / pfxlog setters, os.Setenv,
+    rand.Seed, runtime / debug setters …: the deny-list of the extractor) and never assign a package-level variable of
+    another module. -/
+theorem no_process_wide_config_calls : noProcessWideConfig Generated.configCalls = true := by decide
+
+theorem config_call_table_meaning (cs : List ConfigCall) (h : noProcessWideConfig cs = true) :
+    ∀ c ∈ cs, c.inInit = true := by
+  intro c hc
+  simp only [noProcessWideConfig, List.all_eq_true] at h
+  exact h c hc
+
+/-! ## The pooled parser's error listeners (repaired by 956c2a8) -/
+
+open ParserPool in
+/-- a discipline that removes all listeners before it adds its own delivers every error only to the collector of the parse
+    that produced it — for every sequence of uses of a pooled recogniser, debug parses included, whatever it carried -/
+theorem remove_before_delivers_only_to_own (d : Discipline) (hd : d.removeBeforeAlways = true) (carried : List Nat)
+    (us : List ParserPool.Use) : onlyOwn (deliveries d carried us) = true := by
+  induction us generalizing carried with
+  | nil => rfl
+  | cons u rest ih =>
+    simp only [deliveries, onlyOwn, List.all_append, Bool.and_eq_true]
+    refine ⟨?_, by simpa [onlyOwn] using ih _⟩
+    split
+    · rfl
+    · cases h : d.addsCollector <;> simp [during, hd, h]
+
+/-- **The listener discipline of `zitiql.parse` is the repaired one** (a table obligation, regenerated from the source on every
+    run): the pooled parser has its listeners removed before the function adds its own AND, deferred so that it runs before
+    `parserPool.Put`, after the parse; the pooled lexer has them removed before; both get the caller's collector. -/
+theorem listener_discipline_pinned :
+    Generated.parserListeners = { removeBeforeAlways := true, removeBeforePlain := false, removeAfterDeferred := true, addsCollector := true } ∧
+    Generated.lexerListeners.removeBeforeAlways = true ∧ Generated.lexerListeners.addsCollector = true := by decide
+
+open ParserPool in
+/-- **Every parse delivers only to its own collector** — the code as it is, all sequences of plain and debug parses on one
+    pooled parser / lexer, whatever the recogniser carried when it came out of the pool -/
+theorem every_parse_delivers_only_to_own (carried : List Nat) (us : List ParserPool.Use) :
+    onlyOwn (deliveries Generated.parserListeners carried us) = true ∧
+    onlyOwn (deliveries Generated.lexerListeners carried us) = true :=
+  ⟨remove_before_delivers_only_to_own _ (by decide) carried us, remove_before_delivers_only_to_own _ (by decide) carried us⟩
+
+open ParserPool in
+/-- … and the pooled parser never holds anybody's collector while it sits in the pool -/
+theorem pooled_parser_carries_no_collector (carried : List Nat) (u : ParserPool.Use) :
+    after Generated.parserListeners carried u = [] := by
+  simp [after, Generated.parserListeners]
+
+open ParserPool in
+/-- the discipline before 956c2a8 (remove only on the plain branch, nothing after): a plain parse by caller 1 (no errors), then
+    a debug parse by caller 2 of an input with one syntax error on the same pooled parser — caller 1's collector received
+    caller 2's error -/
+example :
+    deliveries preFix [] [⟨false, 1, 0⟩, ⟨true, 2, 1⟩] = [(1, 2), (2, 2)] ∧
+    onlyOwn (deliveries preFix [] [⟨false, 1, 0⟩, ⟨true, 2, 1⟩]) = false := by decide
+
 /-- in the store model a reader's paging lives in the reader's own query: a paged empty filter is a page of the unpaged
     answer on the same version, whatever other queries were evaluated before -/
 theorem paged_query_is_page_of_all (sk l : Nat) (v : Ver) :
@@ -221,6 +303,17 @@ example : noSharedMutableEscape [] closuresWithHoistedBuffer = false := by decid
 def appendsWithSharedMapPath : List AppendRow :=
   [{ pkg := "boltz", func := "entityMapSymbol.createElementSymbol", operand := "self.path", via := "prefix", how := AppendHow.ontoShared }]
 example : noAppendOntoShared appendsWithSharedMapPath = false := by decide
+
+/-- the table shape of "the `in [...]` node builds a lookup map on its first EvalBool" is rejected -/
+def nodeWritesWithLazyLookup : List NodeWrite :=
+  [{ typ := "InStringArrayExprNode", method := "EvalBool", field := "lookup", how := WriteHow.field, phase := NodePhase.eval },
+   { typ := "InStringArrayExprNode", method := "EvalBool", field := "lookup[]", how := WriteHow.elem, phase := NodePhase.eval }]
+example : evalDoesNotWriteNodes nodeWritesWithLazyLookup = false := by decide
+
+/-- … and so is a parse entry point that flips a runtime-wide ANTLR option -/
+def configCallsWithAntlrTrace : List ConfigCall :=
+  [{ pkg := "zitiql", func := "parse", callee := "github.com/antlr4-go/antlr/v4.ConfigureRuntime", inInit := false }]
+example : noProcessWideConfig configCallsWithAntlrTrace = false := by decide
 
 /-- the second reader's unpaged list is not cut by the first reader's limit (the model's answers on one version) -/
 example :
